@@ -41,8 +41,7 @@ AttemptsFor(s) == IF Quick THEN AttemptsQuick ELSE IF s.k = "linear" THEN Attemp
 E(g, m) == [g |-> g, m |-> m]
 SingleBases == {<<E(g, m)>> : g \in {0, 1, 2500, 3333, 5000, 10000}, m \in BOOLEAN}
 E2 == {E(0, FALSE), E(0, TRUE), E(5000, FALSE), E(10000, TRUE)}
-ListBases == {<<E(5000, FALSE)>>, <<E(0, TRUE)>>}
-             \cup {<<a, b>> : a \in E2, b \in E2}
+ListBases == {<<a, b>> : a \in E2, b \in E2}                       \* ListGrader needs at least two inputs
              \cup {<<E(0, FALSE), E(0, FALSE), E(0, TRUE)>>, <<E(10000, FALSE), E(10000, TRUE), E(10000, FALSE)>>,
                    <<E(0, FALSE), E(3333, TRUE), E(10000, FALSE)>>, <<E(1, FALSE), E(10000, FALSE), E(2500, TRUE)>>}
 Bases == [form : {"single"}, base : SingleBases] \cup [form : {"list"}, base : ListBases]
@@ -53,7 +52,8 @@ Seeds == IF Part = "sched" THEN {[kind |-> "seed", s |-> s, flag |-> FALSE] : s 
 Init == c \in Seeds /\ out = [seed |-> TRUE]
 
 ApplyOut(x) == LET cv == Value(x.s, Eff(x.n)) IN
-               [c |-> cv, res |-> Canonical(x.fb.base, cv, x.n, x.flag), notePs |-> {10 * p : p \in RoundCands(cv, 10)}]
+               [c |-> cv, cCands |-> Cands(x.s, Eff(x.n)),          \* cCands: both neighbours at a rounding tie of the formula
+                res |-> Canonical(x.fb.base, cv, x.n, x.flag), notePs |-> {10 * p : p \in RoundCands(cv, 10)}]
 NextSched == /\ c' \in [kind : {"sched"}, s : {c.s}, n : 1..MaxN]
              /\ out' = [v |-> Value(c'.s, c'.n), cands |-> Cands(c'.s, c'.n), nextCands |-> Cands(c'.s, c'.n + 1)]
 NextApply == /\ c' \in [kind : {"apply"}, s : {c.s}, flag : {c.flag}, n : AttemptsFor(c.s), fb : Bases]
@@ -96,6 +96,22 @@ Base == c.fb.base
 \* the documented result is accepted by the property-level judge, for every admissible rounding of the percentage
 LawCanonicalAccepted == IsApply => \A p \in out.notePs :
                            Judge(Base, out.c, c.n, c.flag, [out.res EXCEPT !.noteP = IF out.res.notes = 1 THEN p ELSE 0]) = "ok"
+\* the judge is not vacuous: every single-field corruption of the documented result is rejected
+Corruptions(r, x) ==
+    LET e1 == r.entries[1] IN
+    { [r EXCEPT !.entries[1].ok = IF e1.ok = "partial" THEN "true" ELSE "partial"],
+      [r EXCEPT !.entries[1].g8 = e1.g8 + 1],
+      [r EXCEPT !.entries[1].exact = FALSE],
+      [r EXCEPT !.entries[1].kept = FALSE],
+      [r EXCEPT !.entries = Tail(r.entries)],
+      [r EXCEPT !.raised = "ZeroDivisionError"],
+      IF r.notes = 1 THEN [r EXCEPT !.notes = 0] ELSE [r EXCEPT !.notes = 1, !.noteN = Eff(x.n), !.noteP = Percent(out.c)],
+      IF r.notes = 1 THEN [r EXCEPT !.notes = 2] ELSE [r EXCEPT !.raised = "x"],
+      IF r.notes = 1 THEN [r EXCEPT !.noteN = Eff(x.n) + 1] ELSE [r EXCEPT !.raised = "x"],
+      IF r.notes = 1 THEN [r EXCEPT !.noteP = r.noteP + 20] ELSE [r EXCEPT !.raised = "x"],
+      IF r.notes = 1 THEN [r EXCEPT !.notePexact = FALSE] ELSE [r EXCEPT !.raised = "x"] }
+LawJudgeSensitive == IsApply => \A bad \in Corruptions(out.res, c) : Judge(Base, out.c, c.n, c.flag, bad) # "ok"
+LawMissingSensitive == c.kind = "missing" => JudgeMissing("none") # "ok" /\ JudgeMissing("TypeError") # "ok"
 LawPercentInCands == IsApply /\ out.res.notes = 1 => out.res.noteP \in out.notePs
 LawWellFormed == IsApply => \A i \in DOMAIN Base :
                     LET e == out.res.entries[i] IN e.g8 >= 0 /\ e.g8 <= Unit2 /\ e.ok = OkOf8(e.g8)
